@@ -249,3 +249,38 @@ def fam_time(seed, n_random, runs):
         calls += [{"tlim": 1000 * 86_400_000 * MS}] * 2
         out.append(base("time-rnd%d" % j, piped, unit, cap, inp, child, calls, runs=runs))
     return out
+
+
+def fam_text(seed, n_random, runs):
+    """C02: the text-returning variant (read_string) equals the lossy UTF-8 decoding of the bytes: ASCII, multi-byte
+    sequences split across child writes and across reads, invalid and truncated sequences, NUL bytes"""
+    rng = random.Random(seed * 32452843 + 5)
+    pieces = [b"plain ascii", "žluťoučký kůň".encode(), "日本語テキスト".encode(), "\U0001F600\U0001F680".encode(), b"\xff\xfe\xfd",
+              b"\xc3", b"\xe6\x97", b"\xf0\x9f\x98", b"\x00\x00", b"a\x80b", b"\xed\xa0\x80", b"\xc0\xaf", b"tail\xe2\x82"]
+    out = []
+    for j in range(n_random):
+        content = {}
+        lens = {}
+        for s_ in ("out", "err"):
+            b = b"".join(rng.choice(pieces) for _ in range(rng.randint(0, 6)))[:200]
+            content[s_] = b.hex()
+            lens[s_] = len(b)
+        piped = rng.choice([["out"], ["out", "err"], ["in", "out", "err"], ["err"]])
+        child = []
+        left = {k: lens[k] for k in ("out", "err") if k in piped}
+        while any(v > 0 for v in left.values()):
+            k = rng.choice([x for x in left if left[x] > 0])
+            n = min(left[k], rng.choice([1, 1, 2, 3, 5, 17]))
+            child.append(["wr", k, n])
+            left[k] -= n
+        if "in" in piped:
+            child.insert(rng.randint(0, len(child)), ["rd", 50])
+            child.append(["rd", 50])
+        child.append(["exit"])
+        calls = [{}]
+        if rng.random() < 0.5:
+            # limits cut multi-byte sequences in the middle: every piece is decoded on its own
+            calls = [{"limit": rng.choice([1, 2, 3, 5, 7])} for _ in range(rng.randint(1, 5))] + [{"limit": 1000}] * 3
+        out.append(base("text-rnd%d" % j, piped, 1, 4096, rng.choice([0, 5, 30]), child, calls, runs=runs,
+                        text=True, content=content, short=(rng.random() < 0.5)))
+    return out
